@@ -3,15 +3,16 @@ package main
 // VC assembly and solver racing.
 
 import (
-	"golang.org/x/tools/go/ssa"
 	"bytes"
 	"context"
 	"fmt"
+	"golang.org/x/tools/go/ssa"
 	"os"
 	"os/exec"
 	"path/filepath"
 	"strings"
 	"sync"
+	"sync/atomic"
 	"time"
 )
 
@@ -39,22 +40,22 @@ const extraPrelude = `
 `
 
 type VC struct {
-	Name    string
-	Clause  string
-	Props   []string
-	Known   string
-	Cover   bool
-	Text    string // full SMT-LIB
-	Func    string
-	Lemma   bool
-	Result  string // unsat, sat, unknown, timeout, error
-	Backend string
-	Ms      int64
-	Output  string
-	AllRes  map[string]string
-	fn      *ssa.Function
-	fc      *FuncContract
-	ModelQ  string
+	Name     string
+	Clause   string
+	Props    []string
+	Known    string
+	Cover    bool
+	Text     string // full SMT-LIB
+	Func     string
+	Lemma    bool
+	Result   string // unsat, sat, unknown, timeout, error
+	Backend  string
+	Ms       int64
+	Output   string
+	AllRes   map[string]string
+	fn       *ssa.Function
+	fc       *FuncContract
+	ModelQ   string
 	ModelOut string
 }
 
@@ -223,9 +224,12 @@ func runSolver(ctx context.Context, s solverSpec, file string, timeoutS int) (st
 	return "error", o
 }
 
+// every solver input file gets its own name, whatever the obligation is called
+var vcFileSeq int64
+
 // discharge runs one VC: quick pass on z3, then race the others.
 func discharge(vc *VC, dir string, timeoutS int, model bool) {
-	file := filepath.Join(dir, sanitize(vc.Name)+".smt2")
+	file := filepath.Join(dir, fmt.Sprintf("%s.%d.smt2", sanitize(vc.Name), atomic.AddInt64(&vcFileSeq, 1)))
 	text := vc.Text
 	if model {
 		if vc.ModelQ != "" {
@@ -337,7 +341,7 @@ func dischargeAll(vcs []*VC, dir string, timeoutS int, workers int) {
 
 // cover: the assumptions must NOT be refutable within a small budget.
 func dischargeCover(vc *VC, dir string) {
-	file := filepath.Join(dir, sanitize(vc.Name)+".smt2")
+	file := filepath.Join(dir, fmt.Sprintf("%s.%d.smt2", sanitize(vc.Name), atomic.AddInt64(&vcFileSeq, 1)))
 	_ = os.WriteFile(file, []byte(vc.Text), 0o644)
 	start := time.Now()
 	r, o := runSolver(context.Background(), solvers[0], file, 2)
